@@ -8,6 +8,7 @@ from .. import compile_common as CC
 
 ID = "C01"
 PROPS_FILE = "Props/C01.v"
+PROPS_EXTRA = ["Props/C01inv.v"]
 GEN_DEPS = ["GenUnits"]
 ALLOWED_AXIOMS: List[str] = []
 THEOREMS = {
@@ -17,6 +18,8 @@ THEOREMS = {
     "C01_no_assert_crash": "full",
     "C01_fold_rule": "full",
     "C01_compiled_is_resolved_up_to_folding": "partial",   # full refinement to resolve;fold;embed not proved
+    "C01inv_crash_only_overflow": "full", "C01inv_never_crashes_structurally": "full", "C01inv_strictly_valid": "full",
+    "C01inv_example_accepted": "example",
     "C01_fold_example": "example", "C01_named_fold_keeps_title": "example", "C01_two_uses_not_folded": "example",
     "C01_other_block_not_folded": "example", "C01_errors_example": "example",
 }
